@@ -192,7 +192,7 @@ class CheckC10(core.Check):
         parsed = parse_name_simple(name)
         keys = sessions.Keys(parsed, seed)
         rnd = random.Random(seed)
-        res = res or getattr(self, "_force_res", None) or (rnd.choice(["D", "R", "DR"]), rnd.choice(["D", "R", "DR"]))
+        res = res or getattr(self, "_force_res", None) or (("D", "D") if self.cfg in ("D", "M") else (rnd.choice(["D", "R", "DR"]), rnd.choice(["D", "R", "DR"])))
         sessions.add_pair(c, parsed, keys, res=res, rng=("script:%d" % seed, "script:%d" % (seed + 1)), rec=("-", "-"))
         sessions.add_handshake(c, parsed, ["gen:5:p%d" % j for j in range(parsed.nmsgs)], upto=k, flags=("q",))
         return parsed, rnd
@@ -358,7 +358,19 @@ class CheckC10(core.Check):
                     descs.append(("hfsw", name, k, rnd.getrandbits(24)))
                     descs.append(("hfsr", name, k, rnd.getrandbits(24)))
         descs.append(("parse", rnd.getrandbits(32)))
-        return [("B", descs)]
+        # default-features build (MAXDHLEN = 56, no P-256 / XChaChaPoly rows): builder key-length sweeps and parsing
+        ddescs = [("parse", rnd.getrandbits(32)) for _ in range(5)]
+        for pat in ("XX", "NN", "KK", "NK", "K", "IK"):
+            for role in "ir":
+                for what in ("s", "rs", "prologue", "psk", "pskname"):
+                    ddescs.append(("build", pat, "25519", role, what, rnd.getrandbits(24)))
+        for p, ps in rnd.sample(list(all_variants()), 40):
+            name = make_name(p, ps, "25519", rnd.choice(["ChaChaPoly", "AESGCM"]), rnd.choice(HASHES))
+            n = len(overhead(p, ps, 32))
+            for k in range(n):
+                ddescs.append(("hsw", name, k, rnd.getrandbits(24)))
+                ddescs.append(("hsr", name, k, rnd.getrandbits(24)))
+        return [("B", descs), ("D", ddescs)]
 
     def _hfs_prefix(self, c, name, seed, k):
         base = name.replace("+Kyber1024", "")
